@@ -56,3 +56,6 @@ RC.append(("real FFTs called with n= / s= by keyword: the rule's argument parser
            [("C09", p, "rev", "wrong-value", "n:odd") for p in ("rfft", "irfft")]))
 RC.append(("np.select of 0-d choices with mixed real/complex members: the re-implementation rebuilds the result from a real-typed list and loses the imaginary part",
            [("C09", "select", "rev", "wrong-shape", "rank:0,ops_cplx:~rc.*"), ("C09", "select", "fwd", "wrong-shape", "rank:0,ops_cplx:~rc.*")]))
+RC.append(("np.diff with n >= 2 along an axis shorter than n+1 (NumPy returns an empty array): the VJP rebuilds a gradient that is longer than the argument",
+           [("C01", "diff", "rev", "wrong-shape", "n_gt_dim_minus_1:True"), ("C05", "diff", "rev", "wrong-structure", "n_gt_dim_minus_1:True"),
+            ("C09", "diff", "rev", "wrong-shape", "n_gt_dim_minus_1:True")]))
